@@ -99,7 +99,15 @@ func Abs(v any) any {
 	case bool:
 		return map[string]any{"k": "bool", "v": x}
 	case string:
-		return map[string]any{"k": "str", "v": x}
+		m := map[string]any{"k": "str", "v": x}
+		if rs := []rune(x); len(rs) <= 12 { // characters as a sequence: TLA+ cannot look inside strings
+			cs := make([]string, len(rs))
+			for i, r := range rs {
+				cs[i] = string(r)
+			}
+			m["cs"] = cs
+		}
+		return m
 	case time.Time:
 		return map[string]any{"k": "time", "v": x.UnixMilli()}
 	case json.Number:
